@@ -81,6 +81,15 @@ type X struct {
 	callDepth int
 	inline    bool // export mode: no definitions
 	unfold    map[string]bool
+	globObjs  map[*ssa.Global]string
+	sideConds []sideCond
+}
+
+// sideCond is a program point outside the modelled subset; the lemma or VC
+// is only valid if the point is unreachable under its assumptions.
+type sideCond struct {
+	cond string
+	why  string
 }
 
 type execMode int
@@ -890,7 +899,11 @@ func (x *X) get(fr *frame, v ssa.Value) Val {
 	case *ssa.Const:
 		return x.constVal(v)
 	case *ssa.Global:
-		return Ptr{Kind: pGlobal, Glob: v, Root: v.Type().(*types.Pointer).Elem()}
+		root := v.Type().(*types.Pointer).Elem()
+		if kindOf(root) == kStruct {
+			return x.globalObj(v, root)
+		}
+		return Ptr{Kind: pGlobal, Glob: v, Root: root}
 	case *ssa.Function:
 		return Clo{Fn: v}
 	case *ssa.Builtin:
@@ -1159,4 +1172,109 @@ func (x *X) pushEdge(fr *frame, from *ssa.BasicBlock, to *ssa.BasicBlock, cond s
 		return
 	}
 	fr.in[to.Index] = append(fr.in[to.Index], e)
+}
+
+// globalObj treats a package-level struct variable as a heap object with a
+// fixed identity, so that its address is a first-class pointer.
+func (x *X) globalObj(g *ssa.Global, root types.Type) Ptr {
+	if x.globObjs == nil {
+		x.globObjs = map[*ssa.Global]string{}
+	}
+	if r, ok := x.globObjs[g]; ok {
+		return Ptr{Kind: pObj, Obj: r, Root: root}
+	}
+	name := "G$" + sanitize(g.Pkg.Pkg.Name()+"."+g.Name())
+	x.sc.Declare(name, nil, SInt)
+	x.sc.Assert(fmt.Sprintf("(and (> %s 0) (select ALLOC0 %s))", name, name))
+	for o, n := range x.globObjs {
+		if o != g {
+			x.sc.Assert(fmt.Sprintf("(not (= %s %s))", name, n))
+		}
+	}
+	x.globObjs[g] = name
+	if x.globalNeverWritten(g) {
+		// zero value for ever (no initialiser, no store, address never escapes as a whole)
+		save := x.st
+		l := objLoc(root, name)
+		x.forLeaves(root, "", func(suffix, sort, zero string) {
+			key := l.key + suffix
+			h0 := "H0." + sanitize(key)
+			if _, ok := x.heapSorts[key]; !ok {
+				x.heapSorts[key] = arrSort(sort)
+				x.sc.Declare(h0, nil, arrSort(sort))
+				if _, ok := x.st.heap[key]; !ok {
+					x.st.heap[key] = h0
+				}
+			}
+			x.sc.Assert(fmt.Sprintf("(= (select %s %s) %s)", h0, name, zero))
+		})
+		x.st = save
+		x.externs["package-level variable "+g.Name()+" keeps its zero value (no store to it or through its address anywhere in the package: checked)"] = true
+	}
+	return Ptr{Kind: pObj, Obj: name, Root: root}
+}
+
+var neverWrittenCache = map[*ssa.Global]bool{}
+
+// globalNeverWritten: no instruction in the package stores to g, to a field
+// address derived from g, or passes g's address to a call / stores it.
+func (x *X) globalNeverWritten(g *ssa.Global) bool {
+	if v, ok := neverWrittenCache[g]; ok {
+		return v
+	}
+	ok := true
+	var derived func(v ssa.Value) bool
+	derived = func(v ssa.Value) bool {
+		switch v := v.(type) {
+		case *ssa.Global:
+			return v == g
+		case *ssa.FieldAddr:
+			return derived(v.X)
+		case *ssa.IndexAddr:
+			return derived(v.X)
+		case *ssa.Phi:
+			for _, e := range v.Edges {
+				if e == g {
+					return true
+				}
+			}
+		}
+		return false
+	}
+	for _, fn := range x.prog.Funcs {
+		if fn.Pkg != g.Pkg || fn.Blocks == nil {
+			continue
+		}
+		for _, b := range fn.Blocks {
+			for _, in := range b.Instrs {
+				switch in := in.(type) {
+				case *ssa.Store:
+					if derived(in.Addr) {
+						ok = false
+					}
+					if in.Val == g {
+						ok = false
+					}
+				case ssa.CallInstruction:
+					for _, a := range in.Common().Args {
+						if a == g {
+							ok = false
+						}
+					}
+				case *ssa.MakeInterface:
+					if in.X == g {
+						ok = false
+					}
+				case *ssa.Return:
+					for _, r := range in.Results {
+						if r == g {
+							ok = false
+						}
+					}
+				}
+			}
+		}
+	}
+	neverWrittenCache[g] = ok
+	return ok
 }
